@@ -462,7 +462,7 @@ func (c *cluster) unprotectedSetState(state string) {
 	}
 
 	c.state = state
-	verifPoint("cluster.state", uint64(state[0]), 0)
+	verifPoint("cluster.state", verifStr(state), 0)
 
 	if state == ClusterStateResizing {
 		c.abortAntiEntropy()
@@ -1063,7 +1063,7 @@ func (c *cluster) handleNodeAction(nodeAction nodeAction) error {
 	// Wait for the resizeJob to finish or be aborted.
 	c.logger.Printf("wait for jobResult")
 	jobResult := <-j.result
-	verifPoint("cluster.hna.result", uint64(j.ID), uint64(jobResult[0]))
+	verifPoint("cluster.hna.result", uint64(j.ID), verifStr(jobResult))
 
 	// Make sure j.run() didn't return an error.
 	if eg.Wait() != nil {
@@ -1271,7 +1271,7 @@ func (c *cluster) unprotectedCompleteCurrentJob(state string) error {
 	if c.currentJob == nil {
 		return ErrResizeNotRunning
 	}
-	verifPoint("cluster.job.complete", uint64(c.currentJob.ID), uint64(state[0]))
+	verifPoint("cluster.job.complete", uint64(c.currentJob.ID), verifStr(state))
 	c.currentJob.setState(state)
 	c.currentJob = nil
 	return nil
